@@ -202,7 +202,8 @@ func runC07(t *testing.T, c C07Case, pos int) *c07Run {
 				}
 			}
 			r.sendAfter = kit.Observe(kit.SendBytes(cs, []byte("late")))
-			_ = cs.Trailer() // permitted once a receive has failed
+			_ = cs.Trailer()   // permitted once a receive has failed
+			_ = cs.CloseSend() // e.g. a deferred half-close: nothing of it may follow the reset on the wire
 			if c.Header {
 				_, _ = cs.Header()
 				r.headerAfter = true
